@@ -116,7 +116,7 @@ def norm_pattern(pattern: AnyStr, normalize: bool | None, is_raw_chars: bool) ->
         elif is_raw_chars and m.group(3):
             try:
                 char = bytes([int(m.group(3)[2:], 16)]) if is_bytes else chr(int(m.group(3)[2:], 16))
-            except ValueError as e:
+            except (ValueError, OverflowError) as e:
                 raise SyntaxError(
                     f"Could not convert character value {m.group(3)!r} at position {m.start(3):d}"
                 ) from e
